@@ -13,6 +13,7 @@ Usage (in a child process, BEFORE anything imports reactivex):
 from __future__ import annotations
 
 import datetime
+import gc
 import os
 import sys
 import threading as _T
@@ -170,6 +171,7 @@ class Ctl:
         self.clock_advances = 0
         self.quiescence_waiter: Rec | None = None
         self.cur_where: Any = None
+        self.running: Rec | None = None      # the thread that holds the baton
 
     # ---- thread records
     def reg(self, name: str) -> Rec:
@@ -249,6 +251,7 @@ class Ctl:
         if nxt is me:
             return
         self.switches += 1
+        self.running = nxt
         nxt.sem.release()
         me.sem.acquire()
         if self.killing:
@@ -259,7 +262,8 @@ class Ctl:
         if not self.active or self.killing:
             return
         r = self.me()
-        if r is None:
+        if r is None or r is not self.running:
+            # not the baton holder (e.g. a finalizer run by the garbage collector in a thread that is still parked)
             return
         self.steps += 1
         if self.steps > self.max_steps:
@@ -274,7 +278,7 @@ class Ctl:
         if self.killing:
             raise Killed()
         r = self.me()
-        if not self.active or r is None:
+        if not self.active or r is None or r is not self.running:
             if pred():
                 return True
             raise RuntimeError("uncontrolled blocking wait (%s) outside a dsched run" % what)
@@ -318,6 +322,7 @@ class Ctl:
         nxt = self._decide(r, False, None)
         if nxt is not None:
             self.switches += 1
+            self.running = nxt
             nxt.sem.release()
         else:
             live = [x for x in self.th.values() if not x.done]
@@ -727,6 +732,9 @@ def install(prefixes: tuple) -> None:
     mon.register_callback(TOOL, mon.events.LINE, _on_line)
     mon.set_events(TOOL, mon.events.LINE)
     _installed = True
+    gc.collect()
+    gc.freeze()           # everything imported so far is permanent: the per-run gc.collect() stays cheap
+    gc.disable()
     set_files(prefixes)
 
 
@@ -772,6 +780,7 @@ WATCHDOG_S = 20.0
 def run(scenario: Callable[[Ctl], Any], strategy: Strategy, max_steps: int = 400000) -> Ctl:
     """Run one scenario (the driver thread executes scenario(ctl)) under `strategy`."""
     global CTL
+    gc.collect()          # finalizers run here, between runs, never at a random point inside a run
     c = Ctl(strategy, max_steps)
     CTL = c
     done = R_Semaphore(0)
@@ -797,11 +806,20 @@ def run(scenario: Callable[[Ctl], Any], strategy: Strategy, max_steps: int = 400
     while "driver" not in c.by_name:
         time.sleep(0.0001)
     c.by_name["driver"].real = t
+    c.running = c.by_name["driver"]
     c.active = True
     c.by_name["driver"].sem.release()
     ok = done.acquire(timeout=WATCHDOG_S)
     if not ok:
-        c.failed = c.failed or ("watchdog: run exceeded %ss wall clock; %s" % (WATCHDOG_S, c.describe()))
+        import traceback
+        frames = sys._current_frames()
+        stacks = []
+        for ident, r in list(c.th.items()):
+            f = frames.get(ident)
+            if f is not None and not r.done:
+                stacks.append("%s: %s" % (r.name, " < ".join("%s:%d" % (os.path.basename(fs.filename), fs.lineno) for fs in reversed(traceback.extract_stack(f)[-7:]))))
+        c.failed = c.failed or ("watchdog: run exceeded %ss wall clock; steps=%d decisions=%d; %s; stacks: %s" % (
+            WATCHDOG_S, c.steps, len(c.decisions), c.describe(), " || ".join(stacks)))
         c.watchdog = True  # type: ignore[attr-defined]
     # tear down: wake every parked thread with Killed
     c.killing = True
